@@ -7,6 +7,8 @@ export GOPROXY=off GOSUMDB=off GOTOOLCHAIN=local GOFLAGS=-mod=mod; unset GOWORK
 one() {
   R="$1"; HERE="$2"
   W=$(mktemp -d /tmp/gfcross.XXXXXX); mkdir -p $W/repo
+  # a private build cache per worker, removed with it: tens of thousands of variant builds must not fill the shared cache
+  export GOCACHE=$W/gocache
   (cd /repo && git ls-files -z | xargs -0 cp --parents -t $W/repo)
   cd $W/repo && git init -q . && git apply --whitespace=nowarn $R/patch.diff 2>/dev/null || { rm -rf $W; return; }
   git add -A >/dev/null 2>&1; git -c user.email=a@b -c user.name=x commit -qm r >/dev/null 2>&1
